@@ -286,6 +286,21 @@ PROBE_TABLES = r'''
   }
   printf("],\n");
 }
+/* ---- frame classification: which (type, subtype, order) give which header length / flags (64-byte zero frames) ---- */
+{
+  printf("\"classify\": [");
+  int first = 1;
+  for (int fc0 = 0; fc0 < 256; fc0 += 1) for (int ord = 0; ord < 2; ord++) {
+    unsigned char buf[64]; memset(buf, 0, sizeof buf);
+    buf[0] = (unsigned char) fc0; buf[1] = ord ? 0x80 : 0;
+    struct libwifi_frame fr; memset(&fr, 0, sizeof fr);
+    int r = libwifi_get_wifi_frame(&fr, buf, sizeof buf, 0);
+    printf("%s[%d,%d,%d,%d,%d]", first ? "" : ",", fc0, ord, r, r == 0 ? (int) fr.header_len : -1, r == 0 ? (int) fr.flags : -1);
+    first = 0;
+    if (r == 0) libwifi_free_wifi_frame(&fr);
+  }
+  printf("],\n");
+}
 /* ---- radiotap namespace alignment/size table (static in the vendored iterator) ---- */
 {
   printf("\"rtap_sizes\": [");
@@ -613,6 +628,10 @@ def emit(data):
         s += "/-- (position 0 group/1 pairwise/2 akm, oui 0 IEEE/1 Microsoft/2 other, selector, flags) — non-zero entries of the exhaustive tabulation -/\n"
         s += "def %s : List (Nat × Nat × Nat × Nat) := [\n" % nm.replace("_e", "E")
         s += ",\n".join("  (%d, %d, %d, %s)" % (a, b, c, d) for a, b, c, d in pr[nm]) + "]\n\n"
+    # QoS data subtypes: data-type frame-control octets (version 0) whose classification reports the QoS flag
+    qos = sorted({fc0 >> 4 for fc0, o, r, hl, fl in pr["classify"] if r == 0 and (fc0 & 3) == 0 and ((fc0 >> 2) & 3) == 2 and fl >= 0 and (fl & 2)})
+    s += "/-- data subtypes classified as QoS (behavioural tabulation over all frame-control octets) -/\n"
+    s += "def qosSubtypes : List Nat := [%s]\n" % ", ".join(map(str, qos))
     s += "def rtapSizes : List (Nat × Nat) := [%s]\n" % ", ".join("(%d, %d)" % (a, b) for a, b in pr["rtap_sizes"])
     s += "def rtapNBits : Nat := %d\n" % pr["rtap_nbits"]
     s += "\nend LWV.Gen\n"
